@@ -46,6 +46,32 @@ CHECKS = {
    note='Trusted: clang front end; correctly rounded host printf and C literal parsing; union same-size type punning. '
         'Not decided: the run-time value the C compiler assigns to the literal.',
    ref='DESIGN.md 4/C07'),
+ 'C16': dict(
+   technique='finite table check: partial evaluation dispatch -> template -> runtime function path summary (one __atomic builtin, width, order, wrapping, zero-extension)',
+   text='All 63 atomic access flavours (0xFE 0x10-0x4E) are followed from the sub-opcode through the emitter to the runtime function; '
+        'its summary must consist of exactly one seq_cst __atomic builtin of the row\'s operation on an object of the access width, fed '
+        'with operands wrapped to that width and returning the zero-extended old (cmpxchg: observed) value; the emitter accepts exactly '
+        'the natural alignment and rejects any other; effective address and operand roles as for plain accesses.',
+   note='Atomicity and sequential consistency of the builtins on the host are trusted; linearizability over interleavings is not decided '
+        '(it follows from single-builtin bodies under that trust). Little-endian configuration; the big-endian lock regions are decided in C19.',
+   ref='DESIGN.md 4/C16'),
+ 'C18': dict(
+   technique='static lock-set consistency over partial-evaluation path summaries (ordered read/write/lock/unlock traces of the memory descriptor)',
+   text='On every shared path of wasmMemoryGrow all reads and writes of pages/size lie inside the single, balanced lock region of the '
+        'memory mutex; shared memories are never reallocated or given a new data pointer; failed grows store nothing; the memory.size '
+        'template reads the page count through an accessor whose summary holds the mutex (a plain field read is reported).',
+   note='Decides the structural premises of linearizability (consistent lock set, balanced regions), not the interleaving semantics; '
+        'pthread mutex semantics trusted; fairness not addressed.',
+   ref='DESIGN.md 4/C18'),
+ 'C19': dict(
+   technique='path summaries of the runtime header parsed for a big-endian target description; count/width/position of byte reversals on symbolic values; cast query over wasi.c',
+   text='For all 86 access flavours in the big-endian configuration the value returned and the value stored each carry exactly one byte '
+        'reversal of exactly the access width, applied to the loaded bytes / as the last step before the store, none for 8-bit and bulk '
+        'copies; RMW/cmpxchg are single lock regions; the translator\'s float-immediate readers reverse once (and not at all on '
+        'little-endian); wasi.c never reinterprets guest memory as a multi-byte object.',
+   note='Compile-only on this little-endian host; __builtin_bswapN trusted; alignment of the typed accesses on real big-endian hardware and '
+        'the non-builtin mask-and-shift swap macros are not decided.',
+   ref='DESIGN.md 4/C19'),
 }
 
 NOT_APPLICABLE = {}
